@@ -729,6 +729,12 @@ func (h *Hist) judgeC15(op *Op, pre *ref.Model, preFiles map[string][]byte, res 
 	if op.Variant == "find" || res.Err != nil {
 		return
 	}
+	if op.Sub == "size" && !h.sizeOracle {
+		// with an index file missing, Stat (and with it the size-based selection) changes as soon as a
+		// read rebuilds the index - the harness's own FindBySize call before the trim does exactly
+		// that, so its result cannot be compared with what the trim selected internally
+		return
+	}
 	// reported deletions
 	for o := range res.DelOffs {
 		if _, ok := found[o]; !ok {
